@@ -533,14 +533,40 @@ theorem VInvX.toInv {s : VState} {ex : Int} (h : VInvX s ex)
   have := h.voice_ok i hi0 hi1
   grind
 
+/-- `{ s with virtUsed := x }` as an opaque step (keeps `simp` from eta-expanding states) -/
+def VState.withUsed (s : VState) (x : Int) : VState := { s with virtUsed := x }
+
+@[simp] theorem withUsed_numTracks (s : VState) (x) : (s.withUsed x).numTracks = s.numTracks := rfl
+@[simp] theorem withUsed_virtChannels (s : VState) (x) : (s.withUsed x).virtChannels = s.virtChannels := rfl
+@[simp] theorem withUsed_maxvoc (s : VState) (x) : (s.withUsed x).maxvoc = s.maxvoc := rfl
+@[simp] theorem withUsed_virtUsed (s : VState) (x) : (s.withUsed x).virtUsed = x := rfl
+@[simp] theorem withUsed_voices (s : VState) (x) : (s.withUsed x).voices = s.voices := rfl
+@[simp] theorem withUsed_chans (s : VState) (x) : (s.withUsed x).chans = s.chans := rfl
+@[simp] theorem withUsed_voice (s : VState) (x i) : (s.withUsed x).voice i = s.voice i := rfl
+@[simp] theorem withUsed_chan (s : VState) (x i) : (s.withUsed x).chan i = s.chan i := rfl
+@[simp] theorem withUsed_usedCount (s : VState) (x) : usedCount (s.withUsed x) = usedCount s := rfl
+@[simp] theorem withUsed_rootCount (s : VState) (x c) : rootCount (s.withUsed x) c = rootCount s c := rfl
+
 /-- the part of `alloc_voice` after the voice index is known -/
 def allocTail (s1 : VState) (i chn : Int) : VState × Int :=
   if i ≥ 0 then
     let s2 := s1.setChan chn { s1.chan chn with count := (s1.chan chn).count + 1 }
-    let s3 := { s2 with virtUsed := s2.virtUsed + 1 }
+    let s3 := s2.withUsed (s2.virtUsed + 1)
     let s4 := s3.setVoice i { s3.voice i with chn := chn, root := chn }
     (s4.setChan chn { s4.chan chn with map := i }, i)
   else (s1, i)
+
+/-- the table updates of `free_voice` for the stolen voice `num` -/
+def unmap (s : VState) (num : Int) : VState :=
+  let vi := s.voice num
+  let s1 := s.setChan vi.chn { s.chan vi.chn with map := -1 }
+  let s2 := s1.setChan vi.root { s1.chan vi.root with count := (s1.chan vi.root).count - 1 }
+  s2.withUsed (s2.virtUsed - 1)
+
+theorem freeVoice_eq (s : VState) :
+    freeVoice s = if quietest s.numTracks s.voices 0 (-1) intMax ≥ 0
+      then (unmap s (quietest s.numTracks s.voices 0 (-1) intMax), quietest s.numTracks s.voices 0 (-1) intMax)
+      else (s, quietest s.numTracks s.voices 0 (-1) intMax) := rfl
 
 theorem allocVoice_eq (s : VState) (chn : Int) :
     allocVoice s chn = if firstFree s.voices 0 = s.maxvoc then allocTail (freeVoice s).1 (freeVoice s).2 chn
@@ -550,21 +576,16 @@ theorem allocVoice_eq (s : VState) (chn : Int) :
   · simp only [h, if_true]; rfl
   · simp only [h, if_false]; rfl
 
-
 /-- what `alloc_voice` guarantees when it succeeds (`r` = its result), `s` = state before -/
 def AllocGood (s : VState) (chn : Int) (r : VState × Int) : Prop :=
   0 ≤ r.2 ∧ r.2 < s.maxvoc ∧ VInvX r.1 (s.chan chn).map ∧ SameConsts s r.1 ∧
   (r.1.chan chn).map = r.2 ∧ (r.1.voice r.2).chn = chn ∧ r.2 ≠ (s.chan chn).map ∧
   r.1.voice (s.chan chn).map = s.voice (s.chan chn).map
 
-theorem freeVoice_num (s : VState) (hl : s.voices.length = s.maxvoc.toNat) :
-    (freeVoice s).2 = quietest s.numTracks s.voices 0 (-1) intMax ∧
-    ((freeVoice s).2 = -1 ∨ (0 ≤ (freeVoice s).2 ∧ (freeVoice s).2 < s.maxvoc ∧
-      (s.voice (freeVoice s).2).chn ≥ s.numTracks)) := by
-  have e : (freeVoice s).2 = quietest s.numTracks s.voices 0 (-1) intMax := by
-    unfold freeVoice; simp only []; split <;> rfl
-  refine ⟨e, ?_⟩
-  rw [e]
+theorem quietest_range (s : VState) (hl : s.voices.length = s.maxvoc.toNat) :
+    quietest s.numTracks s.voices 0 (-1) intMax = -1 ∨
+    (0 ≤ quietest s.numTracks s.voices 0 (-1) intMax ∧ quietest s.numTracks s.voices 0 (-1) intMax < s.maxvoc ∧
+      (s.voice (quietest s.numTracks s.voices 0 (-1) intMax)).chn ≥ s.numTracks) := by
   rcases quietest_spec s.numTracks s.voices 0 (-1) intMax with h | ⟨h1, h2, h3⟩
   · left; exact h
   · right
@@ -574,29 +595,19 @@ theorem freeVoice_num (s : VState) (hl : s.voices.length = s.maxvoc.toNat) :
     simp only [this, if_false]
     simpa using h3
 
-theorem allocTail_steal {s : VState} (h : VInv s) (chn : Int) (h0 : 0 ≤ chn) (h1 : chn < s.numTracks)
-    (hnum : 0 ≤ (freeVoice s).2) : AllocGood s chn (allocTail (freeVoice s).1 (freeVoice s).2 chn) := by
+theorem allocTail_steal {s : VState} (h : VInv s) (chn num : Int) (h0 : 0 ≤ chn) (h1 : chn < s.numTracks)
+    (hn0 : 0 ≤ num) (hn1 : num < s.maxvoc) (hnc : (s.voice num).chn ≥ s.numTracks) :
+    AllocGood s chn (allocTail (unmap s num) num chn) := by
   have hlv := h.len_voices
   have hlc := h.len_chans
   have hm := h.maxvoc_nonneg
   have ht := h.tracks
   have hml := h.maxvoc_le
-  obtain ⟨e, hq⟩ := freeVoice_num s hlv
-  have e1 : (freeVoice s).1 = (let num := (freeVoice s).2
-      let vi := s.voice num
-      let s1 := s.setChan vi.chn { s.chan vi.chn with map := -1 }
-      let s2 := s1.setChan vi.root { s1.chan vi.root with count := (s1.chan vi.root).count - 1 }
-      { s2 with virtUsed := s2.virtUsed - 1 }) := by
-    rw [e] at hnum
-    rw [e]; unfold freeVoice; simp only [ge_iff_le, hnum, if_true]
-  rw [e1]
-  generalize (freeVoice s).2 = num at *
-  have hq : 0 ≤ num ∧ num < s.maxvoc ∧ (s.voice num).chn ≥ s.numTracks := by omega
-  have hvn := h.voice_ok num hq.1 hq.2.1
+  have hvn := h.voice_ok num hn0 hn1
   have hcc := h.chan_ok chn h0 (by omega)
-  unfold allocTail AllocGood
-  simp only [ge_iff_le, hnum, if_true]
-  refine ⟨hq.2.1, ?_, ?_, ?_, ?_, ?_, ?_⟩
+  unfold allocTail AllocGood unmap
+  simp only [ge_iff_le, hn0, if_true]
+  refine ⟨trivial, hn1, ?_, ?_, ?_, ?_, ?_, ?_⟩
   · constructor
     · simpa using h.maxvoc_nonneg
     · simpa using h.len_voices
@@ -604,17 +615,487 @@ theorem allocTail_steal {s : VState} (h : VInv s) (chn : Int) (h0 : 0 ≤ chn) (
     · simpa using h.tracks
     · simpa using h.maxvoc_le
     · intro j hj0 hj1
-      simp only [setVoice_maxvoc, setChan_maxvoc] at hj1
+      simp only [setVoice_maxvoc, setChan_maxvoc, withUsed_maxvoc] at hj1
       have := h.voice_ok j hj0 hj1
       vnorm
       grind
-    · sorry
-    · sorry
-    · sorry
+    · intro c hc0 hc1
+      simp only [setVoice_virtChannels, setChan_virtChannels, withUsed_virtChannels] at hc1
+      have := h.chan_ok c hc0 hc1
+      vnorm
+      grind
+    · have := h.used_eq
+      vnorm
+      grind
+    · intro c hc0 hc1
+      simp only [setVoice_virtChannels, setChan_virtChannels, withUsed_virtChannels] at hc1
+      have := h.count_eq c hc0 hc1
+      vnorm
+      grind
   · simp [SameConsts]
   · vnorm; grind
   · vnorm; grind
   · grind
   · vnorm; grind
+
+
+theorem allocTail_free {s : VState} (h : VInv s) (chn i : Int) (h0 : 0 ≤ chn) (h1 : chn < s.virtChannels)
+    (hn0 : 0 ≤ i) (hn1 : i < s.maxvoc) (hnc : (s.voice i).chn = -1) :
+    AllocGood s chn (allocTail s i chn) := by
+  have hlv := h.len_voices
+  have hlc := h.len_chans
+  have hm := h.maxvoc_nonneg
+  have ht := h.tracks
+  have hml := h.maxvoc_le
+  have hvn := h.voice_ok i hn0 hn1
+  have hcc := h.chan_ok chn h0 (by omega)
+  unfold allocTail AllocGood
+  simp only [ge_iff_le, hn0, if_true]
+  refine ⟨trivial, hn1, ?_, ?_, ?_, ?_, ?_, ?_⟩
+  · constructor
+    · simpa using h.maxvoc_nonneg
+    · simpa using h.len_voices
+    · simpa using h.len_chans
+    · simpa using h.tracks
+    · simpa using h.maxvoc_le
+    · intro j hj0 hj1
+      simp only [setVoice_maxvoc, setChan_maxvoc, withUsed_maxvoc] at hj1
+      have := h.voice_ok j hj0 hj1
+      vnorm
+      grind
+    · intro c hc0 hc1
+      simp only [setVoice_virtChannels, setChan_virtChannels, withUsed_virtChannels] at hc1
+      have := h.chan_ok c hc0 hc1
+      vnorm
+      grind
+    · have := h.used_eq
+      vnorm
+      grind
+    · intro c hc0 hc1
+      simp only [setVoice_virtChannels, setChan_virtChannels, withUsed_virtChannels] at hc1
+      have := h.count_eq c hc0 hc1
+      vnorm
+      grind
+  · simp [SameConsts]
+  · vnorm; grind
+  · vnorm; grind
+  · grind
+  · vnorm; grind
+
+/-- `alloc_voice` on a foreground channel: either it fails and leaves the state untouched, or `AllocGood`. -/
+theorem allocVoice_good {s : VState} (h : VInv s) (chn : Int) (h0 : 0 ≤ chn) (h1 : chn < s.numTracks) :
+    ((allocVoice s chn).2 < 0 ∧ (allocVoice s chn).1 = s) ∨ AllocGood s chn (allocVoice s chn) := by
+  have hlv := h.len_voices
+  have hm := h.maxvoc_nonneg
+  have ht := h.tracks
+  rw [allocVoice_eq]
+  split
+  · rw [freeVoice_eq]
+    rcases quietest_range s hlv with hq | ⟨q0, q1, q2⟩
+    · left
+      have : ¬ quietest s.numTracks s.voices 0 (-1) intMax ≥ 0 := by omega
+      simp only [this, if_false, allocTail, and_true]
+      rw [hq]; decide
+    · right
+      simp only [ge_iff_le, q0, if_true]
+      exact allocTail_steal h chn _ h0 h1 q0 q1 q2
+  · rename_i hne
+    right
+    have ff := firstFree_spec s.voices 0
+    have f0 : 0 ≤ firstFree s.voices 0 := by omega
+    have f1 : firstFree s.voices 0 < s.maxvoc := by omega
+    apply allocTail_free h chn _ h0 (by omega) f0 f1
+    have := ff.2.2 (by omega)
+    unfold VState.voice
+    have hn : ¬ firstFree s.voices 0 < 0 := by omega
+    simp only [hn, if_false]
+    simpa using this
+
+theorem allocVoice_inv {s : VState} (h : VInv s) (chn : Int) (h0 : 0 ≤ chn) (h1 : chn < s.numTracks)
+    (hfree : (s.chan chn).map = -1) : VInv (allocVoice s chn).1 := by
+  rcases allocVoice_good h chn h0 h1 with ⟨_, e⟩ | g
+  · rw [e]; exact h
+  · obtain ⟨_, _, hx, _⟩ := g
+    rw [hfree] at hx
+    exact hx.toInv (by left; omega)
+
+
+/-! ## the NNA relocation -/
+
+theorem relocTarget_spec (s : VState) : ∀ (n : Nat) (c d : Int), c ≤ d → d < s.virtChannels →
+    ¬ (s.chan d).map > -1 → d - c + 1 ≤ n →
+    c ≤ relocTarget s n c ∧ relocTarget s n c < s.virtChannels ∧ ¬ (s.chan (relocTarget s n c)).map > -1 := by
+  intro n
+  induction n with
+  | zero => intro c d h1 h2 h3 h4; omega
+  | succ n ih =>
+    intro c d h1 h2 h3 h4
+    unfold relocTarget
+    have : c < s.virtChannels := by omega
+    simp only [this, if_true]
+    split
+    · rename_i hm
+      have hne : c ≠ d := by intro e; subst e; exact h3 hm
+      have := ih (c + 1) d (by omega) h2 h3 (by omega)
+      omega
+    · rename_i hm
+      exact ⟨by omega, this, hm⟩
+
+theorem countP_split {α} (p q r : α → Bool) (l : List α)
+    (h : ∀ x ∈ l, (r x = true ↔ (p x = true ∨ q x = true)) ∧ ¬ (p x = true ∧ q x = true)) :
+    l.countP r = l.countP p + l.countP q := by
+  induction l with
+  | nil => simp
+  | cons a l ih =>
+    have ha := h a (List.mem_cons_self)
+    have := ih (fun x hx => h x (List.mem_cons_of_mem _ hx))
+    simp only [List.countP_cons, this]
+    cases hp : p a <;> cases hq : q a <;> cases hr : r a <;> simp_all <;> omega
+
+theorem countP_lt_length {α} (p : α → Bool) (l : List α) (x : α) (hx : x ∈ l) (hp : p x = false) :
+    l.countP p < l.length := by
+  have h1 : l.countP p ≤ l.length := List.countP_le_length
+  have h2 : l.countP p ≠ l.length := by
+    intro e
+    have := (List.countP_eq_length.1 e) x hx
+    simp [hp] at this
+  omega
+
+/-- `k` distinct channel numbers `nt .. nt+k-1` each carried by some voice: at least `k` voices there -/
+theorem count_chn_range (l : List Voice) (nt : Int) : ∀ k : Nat,
+    (∀ j : Nat, j < k → ∃ v ∈ l, v.chn = nt + j) →
+    k ≤ l.countP (fun v => decide (nt ≤ v.chn ∧ v.chn < nt + k)) := by
+  intro k
+  induction k with
+  | zero => intro _; omega
+  | succ k ih =>
+    intro h
+    have h1 := ih (fun j hj => h j (by omega))
+    have h2 : 0 < l.countP (fun v => decide (v.chn = nt + k)) := by
+      apply List.countP_pos_iff.2
+      obtain ⟨v, hv, e⟩ := h k (by omega)
+      exact ⟨v, hv, by simpa using e⟩
+    have := countP_split (fun v => decide (nt ≤ v.chn ∧ v.chn < nt + k)) (fun v => decide (v.chn = nt + k))
+      (fun v => decide (nt ≤ v.chn ∧ v.chn < nt + (k + 1 : Nat))) l (by
+        intro x _
+        simp only [decide_eq_true_eq]
+        constructor
+        · constructor
+          · intro hh; omega
+          · intro hh; omega
+        · intro hh; omega)
+    omega
+
+theorem voice_mem (s : VState) (i : Int) (h0 : 0 ≤ i) (h1 : i < s.voices.length) : s.voice i ∈ s.voices := by
+  rw [voice_eq_getElem s i h0 (by omega)]
+  exact List.getElem_mem _
+
+/-- pigeonhole: with at least as many background channels as voices and one voice sitting on a
+foreground channel (or free), some background channel is unmapped. -/
+theorem exists_free_background {s : VState} {ex : Int} (h : VInvX s ex)
+    (hq : s.maxvoc ≤ s.virtChannels - s.numTracks)
+    (i : Int) (hi0 : 0 ≤ i) (hi1 : i < s.maxvoc) (hfg : (s.voice i).chn < s.numTracks) :
+    ∃ c, s.numTracks ≤ c ∧ c < s.virtChannels ∧ (s.chan c).map = -1 := by
+  have hlv := h.len_voices
+  have hm := h.maxvoc_nonneg
+  have ht := h.tracks
+  apply Classical.byContradiction
+  intro hno
+  have hall : ∀ c, s.numTracks ≤ c → c < s.virtChannels →
+      0 ≤ (s.chan c).map ∧ (s.chan c).map < s.maxvoc ∧ (s.voice (s.chan c).map).chn = c := by
+    intro c hc0 hc1
+    rcases h.chan_ok c (by omega) hc1 with hm1 | hok
+    · exact absurd ⟨c, hc0, hc1, hm1⟩ hno
+    · exact hok
+  have hk := count_chn_range s.voices s.numTracks (s.virtChannels - s.numTracks).toNat (by
+    intro j hj
+    have := hall (s.numTracks + j) (by omega) (by omega)
+    exact ⟨_, voice_mem s _ this.1 (by omega), this.2.2⟩)
+  have hle : s.voices.countP (fun v => decide (s.numTracks ≤ v.chn ∧ v.chn < s.numTracks + ((s.virtChannels - s.numTracks).toNat : Int)))
+      ≤ s.voices.countP (fun v => decide (s.numTracks ≤ v.chn)) := by
+    apply List.countP_mono_left
+    intro x _ hx
+    simp only [decide_eq_true_eq] at hx ⊢
+    exact hx.1
+  have hlt := countP_lt_length (fun v => decide (s.numTracks ≤ v.chn)) s.voices (s.voice i)
+    (voice_mem s i hi0 (by omega)) (by simp; omega)
+  omega
+
+
+/-- moving the displaced voice `voc` to a free background channel `c` restores the invariant -/
+theorem reloc_inv {s : VState} {voc : Int} (hx : VInvX s voc) (hv0 : 0 ≤ voc) (hv1 : voc < s.maxvoc)
+    (hin : (s.voice voc).chn ≠ -1) (hnm : (s.chan (s.voice voc).chn).map ≠ voc)
+    (c : Int) (hc0 : s.numTracks ≤ c) (hc1 : c < s.virtChannels) (hfree : (s.chan c).map = -1) :
+    VInv ((s.setVoice voc { s.voice voc with chn := c }).setChan c
+      { (s.setVoice voc { s.voice voc with chn := c }).chan c with map := voc }) := by
+  have hlv := hx.len_voices
+  have hlc := hx.len_chans
+  have hm := hx.maxvoc_nonneg
+  have ht := hx.tracks
+  have hml := hx.maxvoc_le
+  have hvv := hx.voice_ok voc hv0 hv1
+  constructor
+  · simpa using hx.maxvoc_nonneg
+  · simpa using hx.len_voices
+  · simpa using hx.len_chans
+  · simpa using hx.tracks
+  · simpa using hx.maxvoc_le
+  · intro j hj0 hj1
+    simp only [setVoice_maxvoc, setChan_maxvoc] at hj1
+    have := hx.voice_ok j hj0 hj1
+    vnorm
+    grind
+  · intro d hd0 hd1
+    simp only [setVoice_virtChannels, setChan_virtChannels] at hd1
+    have := hx.chan_ok d hd0 hd1
+    vnorm
+    grind
+  · have := hx.used_eq
+    vnorm
+    grind
+  · intro d hd0 hd1
+    simp only [setVoice_virtChannels, setChan_virtChannels] at hd1
+    have := hx.count_eq d hd0 hd1
+    vnorm
+    grind
+
+
+/-! ## libxmp_virt_setpatch -/
+
+/-- the voice selection of `setPatch` (its local `r`) -/
+def patchCore (s : VState) (chn : Int) : Option (VState × Int × Int) :=
+  let voc := (s.chan chn).map
+  if voc > -1 then
+    if (s.voice voc).act ≠ 0 then
+      let (s1, vfree) := allocVoice s chn
+      if vfree < 0 then none else
+      let c := relocTarget s1 (s1.virtChannels - s1.numTracks + 1).toNat s1.numTracks
+      let s2 := s1.setVoice voc { s1.voice voc with chn := c }
+      let s3 := s2.setChan c { s2.chan c with map := voc }
+      some (s3, vfree, c)
+    else some (s, voc, chn)
+  else
+    let (s1, v) := allocVoice s chn
+    if v < 0 then none else some (s1, v, chn)
+
+/-- the state after the `check_dct` loop of `setPatch` -/
+def preDct (s0 : VState) (chn ins smp0 key nna dct dca : Int) : VState :=
+  if dct ≠ 0 then checkDctAll s0 chn ins (if ins < 0 then -1 else smp0) key nna dct dca s0.maxvoc.toNat 0 else s0
+
+theorem setPatch_eq (s0 : VState) (chn ins smp0 key nna dct dca : Int) :
+    setPatch s0 chn ins smp0 key nna dct dca =
+      if chn < 0 ∨ chn ≥ s0.virtChannels then (s0, -1) else
+      let smp := if ins < 0 then -1 else smp0
+      match patchCore (preDct s0 chn ins smp0 key nna dct dca) chn with
+      | none => (preDct s0 chn ins smp0 key nna dct dca, -1)
+      | some (s1, v, c) =>
+        if smp < 0 then (resetVoice s1 v, c)
+        else (s1.setVoice v { s1.voice v with smp := smp, vol := 0, ins := ins, act := nna, key := key }, c) := rfl
+
+/-- does `setPatch` take the NNA relocation branch in state `s` (after the DCT loop)? -/
+def RelocTaken (s : VState) (chn : Int) : Prop :=
+  (s.chan chn).map > -1 ∧ (s.voice (s.chan chn).map).act ≠ 0
+
+instance (s : VState) (chn : Int) : Decidable (RelocTaken s chn) := by unfold RelocTaken; infer_instance
+
+theorem patchCore_good {s : VState} (h : VInv s) (chn : Int) (h0 : 0 ≤ chn) (h1 : chn < s.numTracks)
+    (hq : s.maxvoc ≤ s.virtChannels - s.numTracks ∨ ¬ RelocTaken s chn)
+    (s' : VState) (v c' : Int) (hr : patchCore s chn = some (s', v, c')) :
+    VInv s' ∧ SameConsts s s' ∧ (v < 0 ∨ v ≥ s'.maxvoc ∨ (s'.voice v).chn ≠ -1) := by
+  have ht := h.tracks
+  have hcc := h.chan_ok chn h0 (by omega)
+  unfold patchCore at hr
+  simp only [] at hr
+  split at hr
+  · rename_i hvoc
+    have hcc : 0 ≤ (s.chan chn).map ∧ (s.chan chn).map < s.maxvoc ∧ (s.voice (s.chan chn).map).chn = chn := by
+      omega
+    split at hr
+    · rename_i hact
+      have hq : s.maxvoc ≤ s.virtChannels - s.numTracks := by
+        rcases hq with hq | hq
+        · exact hq
+        · exact absurd ⟨hvoc, hact⟩ hq
+      rcases allocVoice_good h chn h0 h1 with ⟨hneg, _⟩ | g
+      · have : (allocVoice s chn).2 < 0 := hneg
+        simp only [this, if_true] at hr
+        cases hr
+      · obtain ⟨g0, g1, gx, gc, gmap, gchn, gne, gvoc⟩ := g
+        generalize allocVoice s chn = r at *
+        obtain ⟨s1, vfree⟩ := r
+        simp only at g0 g1 gx gc gmap gchn gne gvoc hr
+        have : ¬ vfree < 0 := by omega
+        simp only [this, if_false] at hr
+        obtain ⟨c1, c2, c3⟩ := gc
+        obtain ⟨d, hd0, hd1, hdm⟩ := exists_free_background gx (by omega) vfree g0 (by omega) (by omega)
+        have rs := relocTarget_spec s1 (s1.virtChannels - s1.numTracks + 1).toNat s1.numTracks d hd0 hd1
+          (by omega) (by omega)
+        generalize relocTarget s1 (s1.virtChannels - s1.numTracks + 1).toNat s1.numTracks = c at *
+        have hcfree : (s1.chan c).map = -1 := by
+          have := gx.chan_ok c (by omega) rs.2.1
+          omega
+        have hv1 : (s1.voice (s.chan chn).map).chn = chn := by rw [gvoc]; exact hcc.2.2
+        have hinv := reloc_inv gx hcc.1 (by omega) (by omega) (by rw [hv1, gmap]; exact gne) c rs.1 rs.2.1 hcfree
+        simp only [Option.some.injEq, Prod.mk.injEq] at hr
+        obtain ⟨e1, e2, e3⟩ := hr
+        subst e1 e2 e3
+        refine ⟨hinv, by simp [SameConsts, c1, c2, c3], ?_⟩
+        right; right
+        have hlv := gx.len_voices
+        vnorm
+        grind
+    · simp only [Option.some.injEq, Prod.mk.injEq] at hr
+      obtain ⟨e1, e2, e3⟩ := hr
+      subst e1 e2 e3
+      exact ⟨h, ⟨rfl, rfl, rfl⟩, by omega⟩
+  · rename_i hvoc
+    have hfree : (s.chan chn).map = -1 := by omega
+    rcases allocVoice_good h chn h0 h1 with ⟨hneg, _⟩ | g
+    · have : (allocVoice s chn).2 < 0 := hneg
+      simp only [this, if_true] at hr
+      cases hr
+    · obtain ⟨g0, g1, gx, gc, gmap, gchn, gne, gvoc⟩ := g
+      generalize allocVoice s chn = r at *
+      obtain ⟨s1, v1⟩ := r
+      simp only at g0 g1 gx gc gmap gchn gne gvoc hr
+      have : ¬ v1 < 0 := by omega
+      simp only [this, if_false] at hr
+      simp only [Option.some.injEq, Prod.mk.injEq] at hr
+      obtain ⟨e1, e2, e3⟩ := hr
+      subst e1 e2 e3
+      rw [hfree] at gx
+      obtain ⟨c1, c2, c3⟩ := gc
+      exact ⟨gx.toInv (by left; omega), ⟨c1, c2, c3⟩, by omega⟩
+
+
+theorem preDct_inv {s0 : VState} (h : VInv s0) (chn ins smp0 key nna dct dca : Int) (hc : 0 ≤ chn) :
+    VInv (preDct s0 chn ins smp0 key nna dct dca) ∧ SameConsts s0 (preDct s0 chn ins smp0 key nna dct dca) := by
+  unfold preDct
+  split
+  · exact checkDctAll_inv chn ins _ key nna dct dca hc _ s0 0 h (by omega) (by have := h.maxvoc_nonneg; omega)
+  · exact ⟨h, rfl, rfl, rfl⟩
+
+/-- precondition of `setPatch`: a foreground channel, and either the virtual-channel geometry of
+`QUIRK_VIRTUAL` (at least as many background channels as voices) or the NNA relocation is not taken. -/
+def SetPatchOk (s : VState) (chn ins smp key nna dct dca : Int) : Prop :=
+  chn < s.numTracks ∧
+  (s.maxvoc ≤ s.virtChannels - s.numTracks ∨ ¬ RelocTaken (preDct s chn ins smp key nna dct dca) chn)
+
+theorem setPatch_inv' {s : VState} (h : VInv s) (chn ins smp key nna dct dca : Int)
+    (ok : SetPatchOk s chn ins smp key nna dct dca) :
+    VInv (setPatch s chn ins smp key nna dct dca).1 ∧ SameConsts s (setPatch s chn ins smp key nna dct dca).1 := by
+  rw [setPatch_eq]
+  split
+  · exact ⟨h, rfl, rfl, rfl⟩
+  · rename_i hr
+    have h0 : 0 ≤ chn := by omega
+    obtain ⟨hp, cp1, cp2, cp3⟩ := preDct_inv h chn ins smp key nna dct dca h0
+    simp only []
+    generalize (if ins < 0 then (-1 : Int) else smp) = smp'
+    split
+    · exact ⟨hp, cp1, cp2, cp3⟩
+    · rename_i s1 v c heq
+      obtain ⟨hi, ⟨d1, d2, d3⟩, hv⟩ := patchCore_good hp chn h0 (by rw [cp3]; exact ok.1)
+        (by rw [cp1, cp2, cp3]; exact ok.2) s1 v c heq
+      split
+      · have r := resetVoice_consts s1 v
+        refine ⟨resetVoice_inv hi v hv, ?_⟩
+        unfold SameConsts at *
+        simp only []
+        omega
+      · refine ⟨setVoice_same_inv hi v _ rfl rfl, ?_⟩
+        simp [SameConsts]
+        omega
+
+theorem setPatch_inv {s : VState} (h : VInv s) (chn ins smp key nna dct dca : Int)
+    (ok : SetPatchOk s chn ins smp key nna dct dca) : VInv (setPatch s chn ins smp key nna dct dca).1 :=
+  (setPatch_inv' h chn ins smp key nna dct dca ok).1
+
+/-- the relocation branch is never taken when there is no duplicate check and the mapped voice is not in
+an NNA action (non-virtual modules: `act` is always 0) -/
+theorem not_relocTaken_of_act {s : VState} (chn ins smp key nna dca : Int)
+    (hact : (s.voice (s.chan chn).map).act = 0) : ¬ RelocTaken (preDct s chn ins smp key nna 0 dca) chn := by
+  unfold preDct RelocTaken
+  simp [hact]
+
+/-- with `QUIRK_VIRTUAL`, `virtOn` provides as many background channels as voices -/
+theorem virtOn_quirk (numTracks numvoc : Int) (h2 : 0 ≤ numvoc) :
+    (virtOn numTracks numvoc true).maxvoc ≤
+      (virtOn numTracks numvoc true).virtChannels - (virtOn numTracks numvoc true).numTracks := by
+  simp [virtOn, numvoices]
+  repeat' split
+  all_goals omega
+
+/-! ## steps and runs -/
+
+/-- per-operation preconditions (evaluated by the harness at every spied call) -/
+def OpOk (s : VState) : Op → Prop
+  | .reset => True
+  | .resetVoice voc => voc < 0 ∨ voc ≥ s.maxvoc ∨ (s.voice voc).chn ≠ -1
+  | .resetChannel _ => True
+  | .setVol _ _ _ => True
+  | .setPatch c i sm k n d a => SetPatchOk s c i sm k n d a
+  | .pastNoteCut _ => True
+
+theorem step_inv' {s : VState} {op : Op} (h : VInv s) (ok : OpOk s op) :
+    VInv (step s op) ∧ SameConsts s (step s op) := by
+  cases op with
+  | reset =>
+    refine ⟨virtReset_inv h, ?_⟩
+    simp only [step, virtReset, SameConsts]; split <;> simp
+  | resetVoice v => exact ⟨resetVoice_inv h v ok, resetVoice_consts s v⟩
+  | resetChannel c =>
+    refine ⟨resetChannel_inv h c, ?_⟩
+    simp only [step]
+    rw [resetChannel_eq h]
+    split
+    · exact ⟨rfl, rfl, rfl⟩
+    · exact resetVoice_consts _ _
+  | setVol c v m =>
+    refine ⟨setVol_inv h c v m, ?_⟩
+    simp only [step, setVol]
+    generalize (if m = true then 0 else v) = vol'
+    split
+    · exact ⟨rfl, rfl, rfl⟩
+    · split
+      · have := resetVoice_consts (s.setVoice (mapVirtChannel s c)
+          { s.voice (mapVirtChannel s c) with vol := vol' }) (mapVirtChannel s c)
+        simpa [SameConsts] using this
+      · simp [SameConsts]
+  | setPatch c i sm k n d a => exact setPatch_inv' h c i sm k n d a ok
+  | pastNoteCut c => exact pastNoteCut_inv' c _ s _ h
+
+theorem step_inv {s : VState} {op : Op} (h : VInv s) (ok : OpOk s op) : VInv (step s op) :=
+  (step_inv' h ok).1
+
+/-- every op of the history satisfies its precondition in the state where it runs -/
+def RunOk : VState → List Op → Prop
+  | _, [] => True
+  | s, op :: rest => OpOk s op ∧ RunOk (step s op) rest
+
+theorem run_inv {s : VState} (h : VInv s) : ∀ (ops : List Op), RunOk s ops → VInv (ops.foldl step s) := by
+  intro ops
+  induction ops generalizing s with
+  | nil => intro _; exact h
+  | cons op rest ih =>
+    intro ok
+    exact ih (step_inv h ok.1) ok.2
+
+/-- the table geometry never changes -/
+theorem run_consts {s : VState} (h : VInv s) : ∀ (ops : List Op), RunOk s ops → SameConsts s (ops.foldl step s) := by
+  intro ops
+  induction ops generalizing s with
+  | nil => intro _; exact ⟨rfl, rfl, rfl⟩
+  | cons op rest ih =>
+    intro ok
+    have a := step_inv' h ok.1
+    have b := ih a.1 ok.2
+    simp only [List.foldl_cons]
+    unfold SameConsts at *
+    omega
+
+theorem run_bounds {s : VState} (h : VInv s) (ops : List Op) (ok : RunOk s ops) :
+    0 ≤ (ops.foldl step s).virtUsed ∧ (ops.foldl step s).virtUsed ≤ (ops.foldl step s).maxvoc ∧
+    (ops.foldl step s).maxvoc ≤ (ops.foldl step s).virtChannels := (run_inv h ops ok).bounds
 
 end Xmp.Virt
